@@ -33,6 +33,10 @@ EXPLANATION += " R3-R5 no longer match statement templates: the program-specific
 TECHNIQUE += '; template rendering with marker fields; registry membership rule'
 EXPLANATION += " Added: (R7) default templates have the structure the program's input syntax requires (rendered with markers); (R8) the rendered template reaches the file once, and the API forwards template, atom_line and keyword arguments; (R9) every module of iodata.inputs that the registry builder would register (module-level `write_input`) is a documented program writer with the signature api.write_input uses -- a helper exposing that name would become a program. The shared rendering routine is located by role (the function of iodata.inputs every program writer calls), not by its name."
 # --- end metadata batch 7
+# --- metadata added for batch 8
+TECHNIQUE += '; rendering routine and default atom lines interpreted on model objects'
+EXPLANATION += " R1 / R2 no longer match statement shapes of the shared routine: the routine is interpreted with a recording atom-line function on objects with 0, 1 and 4 atoms (a ghost centre and a repeated element included), and each program's default atom-line function -- captured from `write_input` called without one -- on a model object with angstrom standing for 2. R3 includes the default multiplicity for objects whose electron count is odd."
+# --- end metadata batch 8
 TRUSTED = ["CPython ast parser", "int() truncates toward zero; round/np.round/np.rint round to nearest", "str.format(**fields) takes the last value stored under a key"]
 
 ROUNDERS = {"round", "rint", "around"}
